@@ -32,6 +32,14 @@ Fixpoint for_each_res {A S} (xs : list A) (body : A -> S -> res S) (init : S) : 
   | x :: r => do s <- body x init ;; for_each_res r body s
   end.
 
+(* while cond: body   over the carried variables; `fuel` bounds the number of iterations
+   (a Python while has no bound: running out of fuel is reported, not hidden) *)
+Fixpoint while_res {S} (fuel : nat) (cond : S -> bool) (body : S -> res S) (s : S) : res S :=
+  match fuel with
+  | O => OutOfFuel
+  | S f => if cond s then do s' <- body s ;; while_res f cond body s' else Ok s
+  end.
+
 (* ---- str ---- *)
 
 Definition py_strip (s : text) : text := strip s.            (* s.strip() *)
@@ -94,6 +102,15 @@ Fixpoint wdict_get (d : wdict) (k : nat) : res text :=                         (
   match d with
   | [] => Err KeyErr
   | (j, w) :: r => if Nat.eqb k j then Ok w else wdict_get r k
+  end.
+Definition wdict_contains (d : wdict) (k : nat) : bool := existsb (fun e => Nat.eqb k (fst e)) d.   (* k in d *)
+(* a dict from strings to objects (object = its identity): NexusWriter._title_block_map *)
+Definition tdict := list (text * nat).
+Definition tdict_contains (d : tdict) (k : text) : bool := text_mem k (map fst d).                 (* k in d *)
+Fixpoint tdict_set (d : tdict) (k : text) (v : nat) : tdict :=                                     (* d[k] = v *)
+  match d with
+  | [] => [(k, v)]
+  | (j, w) :: r => if text_eqb k j then (j, v) :: r else (j, w) :: tdict_set r k v
   end.
 Definition wdict_values (d : wdict) : list text := map snd d.                  (* d.values() *)
 Definition wdict_keys (d : wdict) : list nat := map fst d.                     (* for k in d *)
